@@ -133,6 +133,31 @@ type boxedValue struct {
 	t types.Type
 }
 
+// proxyImporter lets native go/types call back into a harness-defined types.Importer.
+type proxyImporter struct {
+	e   *Exec
+	val Iface
+}
+
+func (p *proxyImporter) Import(path string) (*types.Package, error) {
+	e := p.e
+	ms := e.w.prog.MethodSets.MethodSet(p.val.T)
+	for i := 0; i < ms.Len(); i++ {
+		if ms.At(i).Obj().Name() == "Import" {
+			r := e.callFrom(nil, e.w.prog.MethodValue(ms.At(i)), []Value{p.val.V, path}).(Tuple)
+			if ei, ok := r[1].(Iface); ok && ei.T != nil {
+				return nil, fmt.Errorf("harness importer: cannot import %s", path)
+			}
+			rv := e.toNative(r[0], reflect.TypeOf((*types.Package)(nil)))
+			if rv.IsNil() {
+				return nil, fmt.Errorf("harness importer: nil package for %s", path)
+			}
+			return rv.Interface().(*types.Package), nil
+		}
+	}
+	return nil, fmt.Errorf("no Import method")
+}
+
 type proxyError struct {
 	e   *Exec
 	val Iface
@@ -641,6 +666,9 @@ func (e *Exec) toNativeIface(v Value, rt reflect.Type) reflect.Value {
 		if e.hasMethod(ifc.T, "Error") {
 			return set(reflect.ValueOf(&proxyError{e: e, val: ifc}))
 		}
+	}
+	if rt.NumMethod() == 1 && rt.Method(0).Name == "Import" && e.hasMethod(ifc.T, "Import") {
+		return set(reflect.ValueOf(&proxyImporter{e: e, val: ifc}))
 	}
 	if rt.NumMethod() == 1 && rt.Method(0).Name == "Write" && e.hasMethod(ifc.T, "Write") {
 		return set(reflect.ValueOf(&proxyWriter{e: e, val: ifc}))
